@@ -27,6 +27,10 @@ import (
 	"github.com/pentops/j5/internal/verifh/vh"
 	"google.golang.org/protobuf/proto"
 	"google.golang.org/protobuf/reflect/protodesc"
+	"google.golang.org/protobuf/reflect/protoreflect"
+	"google.golang.org/protobuf/reflect/protoregistry"
+	"google.golang.org/protobuf/types/descriptorpb"
+	"google.golang.org/protobuf/types/dynamicpb"
 )
 
 type variant struct {
@@ -153,6 +157,9 @@ func genDet(h *vh.H, i int) string {
 	cfg.MaxPkgs, cfg.MaxFiles = 4, 4
 	g := j5sgen.New(h.Rng, cfg)
 	b := g.Bundle()
+	if h.Chance(1, 6) {
+		g.AddImpliedClash(b)
+	}
 	v := randomVariant(h.Rng, b)
 	style := uint64(0)
 	if h.Chance(1, 2) {
@@ -161,7 +168,106 @@ func genDet(h *vh.H, i int) string {
 	return fmt.Sprintf("det %s %s %d", b.Sexp().String(), v.sexp().String(), style)
 }
 
+// hasImpliedClash: some file has two un-aliased package imports that imply the same short name (the later
+// statement owns it). Whether the result is stable is a question of map iteration order: such bundles are
+// compiled many more times, in this process and in fresh ones.
+func hasImpliedClash(b *j5sgen.Bundle) bool {
+	for _, p := range b.Pkgs {
+		for _, f := range p.Files {
+			seen := map[string]bool{}
+			for _, im := range f.Imports {
+				if im.Alias != "" || strings.Contains(im.Path, "/") {
+					continue
+				}
+				parts := strings.Split(im.Path, ".")
+				if len(parts) < 2 {
+					continue
+				}
+				if seen[parts[len(parts)-2]] {
+					return true
+				}
+				seen[parts[len(parts)-2]] = true
+			}
+		}
+	}
+	return false
+}
+
+// printAllMessageOptions: the printer on descriptors WITHOUT source info (as every compiled j5s file) whose
+// messages carry every message-level option known to the process, among them options of different files that share
+// their declaration index and their short name ((buf.validate.message) and (j5.list.v1.message)). One descriptor
+// per package of the bundle, one message per declared top-level name; the text must be the same every time.
+func printAllMessageOptions(b *j5sgen.Bundle) map[string]string {
+	out := map[string]string{}
+	var exts []protoreflect.ExtensionType
+	protoregistry.GlobalTypes.RangeExtensionsByMessage("google.protobuf.MessageOptions", func(xt protoreflect.ExtensionType) bool {
+		if d := xt.TypeDescriptor(); d.Kind() == protoreflect.MessageKind && !d.IsList() && !d.IsMap() {
+			exts = append(exts, xt)
+		}
+		return true
+	})
+	sort.Slice(exts, func(i, j int) bool { return exts[i].TypeDescriptor().FullName() < exts[j].TypeDescriptor().FullName() })
+	for _, p := range b.Pkgs {
+		deps := map[string]bool{}
+		mkOpts := func(skip int) *descriptorpb.MessageOptions {
+			mo := &descriptorpb.MessageOptions{}
+			for i, xt := range exts {
+				if skip >= 0 && i%3 == skip {
+					continue
+				}
+				proto.SetExtension(mo, xt, dynamicOrTyped(xt))
+				deps[xt.TypeDescriptor().ParentFile().Path()] = true
+			}
+			return mo
+		}
+		fd := &descriptorpb.FileDescriptorProto{
+			Name:    proto.String(strings.ReplaceAll(p.Name, ".", "/") + "/zz_all_options.proto"),
+			Syntax:  proto.String("proto3"),
+			Package: proto.String(p.Name),
+		}
+		names := []string{"Only"}
+		for _, f := range p.Files {
+			for _, e := range f.Elems {
+				if e.Object != nil {
+					names = append(names, e.Object.Name)
+				}
+			}
+		}
+		for i, n := range names {
+			fd.MessageType = append(fd.MessageType, &descriptorpb.DescriptorProto{
+				Name:    proto.String("Zz" + n),
+				Options: mkOpts(i%4 - 1),
+				Field: []*descriptorpb.FieldDescriptorProto{{Name: proto.String("name"), Number: proto.Int32(1), JsonName: proto.String("name"),
+					Type: descriptorpb.FieldDescriptorProto_TYPE_STRING.Enum(), Label: descriptorpb.FieldDescriptorProto_LABEL_OPTIONAL.Enum()}},
+			})
+		}
+		fd.Dependency = j5sreal.SortedKeys(deps)
+		file, err := protodesc.NewFile(fd, protoregistry.GlobalFiles)
+		if err != nil {
+			out[p.Name] = "newfile-error:" + err.Error()
+			continue
+		}
+		txt, err := protoprint.PrintFile(context.Background(), file, "")
+		if err != nil {
+			txt = "print-error:" + err.Error()
+		}
+		out[p.Name] = sha([]byte(txt))
+	}
+	return out
+}
+
+// an empty value of the extension's message type
+func dynamicOrTyped(xt protoreflect.ExtensionType) any {
+	v := xt.New()
+	if m, ok := v.Interface().(protoreflect.Message); ok {
+		return m.Interface()
+	}
+	_ = dynamicpb.NewMessage
+	return xt.InterfaceOf(v)
+}
+
 type detOut struct {
+	allopts map[string]string // package -> sha(printed text) of the all-message-options descriptor
 	class  map[string]string            // package -> ok | err | panic
 	hashes map[string]map[string]string // package -> file -> sha(bytes)+sha(text)
 	skel   map[string]string
@@ -247,6 +353,15 @@ func compileVariant(b *j5sgen.Bundle, style uint64, v *variant) *detOut {
 	return out
 }
 
+func (a *detOut) diffAllOpts(b *detOut) (string, string) {
+	for _, p := range j5sreal.SortedKeys(a.allopts) {
+		if a.allopts[p] != b.allopts[p] {
+			return "printed-options-without-source", fmt.Sprintf("package %s: the descriptor carrying every message option prints as %s, then as %s", p, a.allopts[p], b.allopts[p])
+		}
+	}
+	return "", ""
+}
+
 func (a *detOut) diff(b *detOut) (string, string) {
 	for _, p := range j5sreal.SortedKeys(a.class) {
 		if a.class[p] != b.class[p] {
@@ -287,6 +402,9 @@ func (o *detOut) lines() []string {
 			out = append(out, "hash "+p+" "+f+" "+o.hashes[p][f])
 		}
 	}
+	for _, p := range j5sreal.SortedKeys(o.allopts) {
+		out = append(out, "allopts "+p+" "+o.allopts[p])
+	}
 	return out
 }
 
@@ -307,10 +425,33 @@ func execDet(h *vh.H, op string, args []*j5sgen.Node) string {
 		return "bad-op"
 	}
 	ref := compileVariant(b, style, identityVariant(b))
+	ref.allopts = printAllMessageOptions(b)
 	got := compileVariant(b, style, v)
 	h.Count("det.ops")
 	report := func(kind, what, detail string) {
 		h.Fail("c14-"+kind+"-differs:"+what, op, detail)
+	}
+	// the same listing again in this process (every range over a map starts somewhere else)
+	clash := hasImpliedClash(b)
+	repeats := 1
+	if clash {
+		repeats = 12
+		h.Count("det.implied-name-clash")
+	}
+	for k := 0; k < repeats; k++ {
+		again := compileVariant(b, style, identityVariant(b))
+		h.Count("det.repeats")
+		if what, detail := ref.diff(again); what != "" {
+			report("repeat", what, detail)
+			break
+		}
+	}
+	for k := 0; k < 6; k++ {
+		again := &detOut{allopts: printAllMessageOptions(b)}
+		if what, detail := ref.diffAllOpts(again); what != "" {
+			report("repeat", what, detail)
+			break
+		}
 	}
 	if what, detail := ref.diff(got); what != "" {
 		report("variant", what, detail+"\nvariant "+v.sexp().String())
@@ -336,6 +477,9 @@ func execDet(h *vh.H, op string, args []*j5sgen.Node) string {
 	procs := 2
 	if h.Tier == "thorough" {
 		procs = 6
+	}
+	if clash {
+		procs = 20
 	}
 	want := strings.Join(ref.lines(), "\n")
 	for k := 0; k < procs; k++ {
@@ -411,6 +555,7 @@ func childMain(args []string) {
 	var style uint64
 	fmt.Sscan(a[2].Atom, &style)
 	out := compileVariant(b, style, identityVariant(b))
+	out.allopts = printAllMessageOptions(b)
 	var buf bytes.Buffer
 	buf.WriteString(strings.Join(out.lines(), "\n"))
 	buf.WriteByte('\n')
